@@ -179,6 +179,9 @@ let fake_specs = [|
   ("Slack", [ "errkw" ], "errkw", 0, "errkw");
   ("Twilio", [], "t-", 5, "");
   ("Square", [ "SK_TEST" ], "sk_test_", 8, "");      (* keyword and token differ in case *)
+  (* keywords that are NOT part of the token: only here does the prefilter decide whether a token is reported *)
+  ("Mailgun", [ "needkw" ], "mg-", 8, "");
+  ("Heroku", [ "hk1"; "HK2" ], "hr-", 6, "");
 |]
 
 let is_hex c = (c >= '0' && c <= '9') || (c >= 'a' && c <= 'f')
